@@ -70,6 +70,7 @@ func TestWorker(t *testing.T) {
 	known := loadKnown()
 	start := time.Now()
 	seenFP := map[string]bool{}
+	dumped := false
 	for idx := from; idx < to && out.Runs < maxRuns; idx += stride {
 		if time.Since(start) > budget {
 			break
@@ -125,7 +126,9 @@ func TestWorker(t *testing.T) {
 		if r.Viol != nil {
 			if k := known.match(r); k != "" {
 				out.Known[k]++
-				if dump := os.Getenv("VERIF_DUMP_KNOWN"); dump != "" && out.Known[k] == 1 && r.Viol.Property == profile {
+				out.Known[k+"/"+r.Viol.Property+":"+r.Viol.Class]++
+				if dump := os.Getenv("VERIF_DUMP_KNOWN"); dump != "" && !dumped && (os.Getenv("VERIF_DUMP_CLASS") == "" || os.Getenv("VERIF_DUMP_CLASS") == r.Viol.Class) {
+					dumped = true
 					best := minimise(t, r, minBudget, known)
 					a := doRun(t, engine, profile, tier, seed, idx, best.Trace, true)
 					known.match(a)
